@@ -7,8 +7,12 @@ package wallet
 // ed25519 verification is cryptographic and stays uninterpreted: sigValid(pk, msg, sig).
 //@ spec sigValid(pk int, msg int, sig int) bool
 
+// crypto/ed25519.Verify is modelled in the engine (ASSUMED, from its documentation): the result is sigValid(pk, msg, sig) and a
+// signature that is not exactly 64 bytes long never verifies.
+// Proved against the body: exactly the bytes given are verified - no prefix, no normalisation (property C13: the signature
+// is not covered by the block hash, so every accepted encoding of it must be the one the signer produced).
 //@ func VerifySignature(pubkey, message, sig) -> (ok, err)
-//@   trusted
-//@   ensures err == nil ==> (ok <==> sigValid(bytesval(pubkey), bytesval(message), bytesval(sig)))
-//@   ensures err == nil ==> len(pubkey) == 32
+//@   ensures[verifies-exactly-the-given-bytes] err == nil ==> (ok <==> sigValid(bytesval(pubkey), bytesval(message), bytesval(sig)))
+//@   ensures[public-key-has-32-bytes] err == nil ==> len(pubkey) == 32
+//@   ensures[signature-has-64-bytes] err == nil && ok ==> len(sig) == 64
 //@   modifies nothing
